@@ -2021,13 +2021,21 @@ class FilesystemSecurityContext(
 
     def post_seqnoincrease(self):
         if self.sender_sequence_number > self.sequence_number_persisted:
+            before = (self.sequence_number_persisted, self.sequence_number_chunksize)
+
             self.sequence_number_persisted += self.sequence_number_chunksize
 
             self.sequence_number_chunksize = min(
                 self.sequence_number_chunksize * 2, self.sequence_number_chunksize_limit
             )
             # FIXME: this blocks -- see https://github.com/chrysn/aiocoap/issues/178
-            self._store()
+            try:
+                self._store()
+            except BaseException:
+                # Nothing was reserved on disk: the number must not be
+                # used, and the next one has to try again
+                self.sequence_number_persisted, self.sequence_number_chunksize = before
+                raise
 
             # The = case would only happen if someone deliberately sets all
             # numbers to 1 to force persisting on every step
